@@ -23,6 +23,9 @@ def translate():
     """regenerate coq/gen/*.v; only touch files whose content changed (keeps make incremental)"""
     tmp = scratch('gen_tmp')
     rc, out = sh('%s %s/tools/translate.py %s %s' % (sys.executable, VERIF, REPO, tmp), timeout=300)
+    for extra in sorted(glob.glob(os.path.join(VERIF, 'tools', 'tr_*.py'))):
+        rc2, out2 = sh('%s %s %s %s' % (sys.executable, extra, REPO, tmp), timeout=300)
+        rc = rc or rc2; out = out + '\n' + out2
     gen = os.path.join(COQ, 'gen')
     os.makedirs(gen, exist_ok=True)
     changed = []
